@@ -541,7 +541,7 @@ func tierFromArgs() string {
 
 func cases(tier string) int {
 	if tier == "thorough" {
-		return 6000 // the BPF leg loads four programs per state into the kernel (the verifier is serialised system-wide)
+		return 3000 // the BPF leg loads four programs per state into the kernel (the verifier is serialised system-wide)
 	}
 	return 300
 }
